@@ -32,8 +32,8 @@ Fixpoint span_digits (s : list Z) : list Z * list Z :=
 (** an optional '-' is part of the number only for signed types *)
 Definition strip_minus (sg : bool) (s : list Z) : bool * list Z :=
   match s with
-  | 45 :: r => if sg then (true, r) else (false, s)
-  | _ => (false, s)
+  | b :: r => if (b =? 45) && sg then (true, r) else (false, s)
+  | [] => (false, s)
   end.
 
 (** the longest prefix matching [-?[0-9]+] ('-' only if signed): sign, digits, rest *)
@@ -61,9 +61,8 @@ Definition prefix_spec (w : Z) (sg : bool) (s : list Z) : prefix_result :=
     one digit, value in range *)
 Definition std_sign (sg : bool) (s : list Z) : bool * list Z :=
   match s with
-  | 43 :: r => (false, r)
-  | 45 :: r => if sg then (true, r) else (false, s)
-  | _ => (false, s)
+  | b :: r => if b =? 43 then (false, r) else if (b =? 45) && sg then (true, r) else (false, s)
+  | [] => (false, s)
   end.
 
 Definition std_parse (w : Z) (sg : bool) (s : list Z) : option Z :=
